@@ -61,6 +61,7 @@ type Contract struct {
 	Assumes   []Clause
 	Small     []SmallHint
 	Returns   []ReturnsClause
+	Sets      []SetsClause
 	retEnsures []int // indices of ensures clauses generated from returns clauses
 }
 
@@ -72,6 +73,14 @@ type ReturnsClause struct {
 	Result string
 	Val    Clause
 	When   *Clause
+}
+
+// SetsClause: "sets OUTLEN := E when C" — the ghost scalar after the call is
+// defined as ite(C, E, fresh); proved as the postcondition C ==> ghost == E.
+type SetsClause struct {
+	Ghost string
+	Val   Clause
+	When  *Clause
 }
 
 // SmallHint: result (by name r0, r1, ...) takes few values; used to read
@@ -140,7 +149,7 @@ type ContractSet struct {
 
 var keywords = map[string]bool{"spec": true, "global": true, "func": true, "assume": true, "props": true, "requires": true,
 	"ensures": true, "modifies": true, "inline": true, "loop": true, "lemma": true, "panics": true, "trusted": true,
-	"nosafety": true, "pure": true, "uf": true, "specname": true, "split": true, "at": true, "assumes": true, "small": true, "returns": true, "replay": true, "remainder": true, "sweep": true, "bound": true}
+	"nosafety": true, "pure": true, "uf": true, "specname": true, "split": true, "at": true, "assumes": true, "small": true, "returns": true, "sets": true, "replay": true, "remainder": true, "sweep": true, "bound": true}
 
 var labelRe = regexp.MustCompile(`^\[([A-Za-z0-9_.\-]+)\]\s*`)
 
@@ -356,6 +365,42 @@ func parseContractFile(path string, cs *ContractSet) error {
 					return err
 				}
 				ec.Label = "returns." + rc.Result
+				cur.Ensures = append(cur.Ensures, ec)
+				cur.retEnsures = append(cur.retEnsures, len(cur.Ensures)-1)
+			case "sets":
+				j := strings.Index(rest, ":=")
+				if j < 0 {
+					return fmt.Errorf("%s:%d: sets GHOST := expr [when cond]", path, l.line)
+				}
+				gname := map[string]string{"OUTLEN": "outlen", "INPOS": "inpos", "INLEN": "inlen"}[strings.TrimSpace(rest[:j])]
+				if gname == "" {
+					return fmt.Errorf("%s:%d: sets: unknown ghost variable", path, l.line)
+				}
+				sc := SetsClause{Ghost: gname}
+				body := strings.TrimSpace(rest[j+2:])
+				if k := strings.LastIndex(body, " when "); k >= 0 {
+					wc, err := mkClause(strings.TrimSpace(body[k+6:]), l.line)
+					if err != nil {
+						return err
+					}
+					sc.When = &wc
+					body = strings.TrimSpace(body[:k])
+				}
+				vc, err := mkClause(body, l.line)
+				if err != nil {
+					return err
+				}
+				sc.Val = vc
+				cur.Sets = append(cur.Sets, sc)
+				txt := gname + "() == (" + body + ")"
+				if sc.When != nil {
+					txt = "(" + sc.When.Text + ") ==> " + txt
+				}
+				ec, err := mkClause(txt, l.line)
+				if err != nil {
+					return err
+				}
+				ec.Label = "sets." + gname
 				cur.Ensures = append(cur.Ensures, ec)
 				cur.retEnsures = append(cur.retEnsures, len(cur.Ensures)-1)
 			case "small":
